@@ -144,7 +144,7 @@ func init() {
 					defer wg.Done()
 					conn, err := r.srv.Accept()
 					if err != nil {
-						vrt.Fail("harness", "Accept: %v", err)
+						vrt.Fail("all-bytes-before-eof", "Accept refused (%v) the stream on which the client wrote %d bytes before Close: they are lost", err, nd)
 					}
 					ss := conn.(*Stream)
 					switch mode {
@@ -205,10 +205,13 @@ func init() {
 						vrt.Observe("srv-local-got=%d", len(got))
 					}
 				})
-				// the server's accept loop is already waiting when traffic starts (as serveSession is);
-				// an Accept that is called only after a singleplex session has come and gone is a separate
-				// question (see DESIGN, candidate finding F12)
-				quiesce()
+				// by default the server's accept loop is already waiting when traffic starts; lateaccept=1
+				// lets the scheduler run the whole client side (data, closing frame, and in singleplex mode
+				// the session-closing notice) before the first Accept: the stream and its bytes must still
+				// be handed out (finding F15)
+				if c.P("lateaccept", "0") != "1" {
+					quiesce()
+				}
 				startClient()
 				wg.Wait()
 				quiesce()
@@ -248,6 +251,10 @@ func init() {
 			{Scenario: "mux.close", Params: vx.P("data", "300", "mode", "local"), Bound: b(1, 2), Weight: 6},
 			{Scenario: "mux.close", Params: vx.P("data", "5", "singleplex", "1", "conns", "1"), Bound: b(2, 3), Weight: 4},
 			{Scenario: "mux.close", Params: vx.P("data", "300", "method", "aes-128-gcm"), Bound: b(1, 2), Weight: 5},
+			{Scenario: "mux.close", Params: vx.P("data", "5", "singleplex", "1", "conns", "1", "lateaccept", "1"), Bound: b(2, 3), Weight: 5},
+			{Scenario: "mux.close", Params: vx.P("data", "300", "conns", "2", "lateaccept", "1", "delay", "1"), Bound: b(2, 3), Weight: 6},
+			{Scenario: "e2e.route", Params: vx.P("numconn", "0", "apps", "1", "sizes", "5", "forget", "1"), Bound: b(2, 2), Weight: 9},
+			{Scenario: "e2e.route", Params: vx.P("numconn", "2", "apps", "2", "sizes", "5,3", "forget", "1"), Bound: b(1, 2), Weight: 9},
 			{Scenario: "mux.close", Params: vx.P("data", "300", "mode", "srvinit"), Bound: b(2, 3), Weight: 6},
 			{Scenario: "mux.close", Params: vx.P("data", "0", "mode", "srvinit", "conns", "3", "delay", "1"), Bound: b(2, 3), Weight: 6},
 		}
